@@ -304,6 +304,19 @@ func c01Scenario(t *testing.T, o *vOut, seed int64, maxN, scIdx int) {
 	rngSC := rand.New(rand.NewSource(seed*31 + 5))
 	storageCheck := rngSC.Intn(3) == 0
 	together := storageCheck && rngSC.Intn(2) == 0 // all requests arrive at the same instant
+	// a storage OUTAGE of one instance in the middle of a save: beginning with the j-th bundle write
+	// of the scenario, every write (Store and Delete — so the roll-back of the half-finished save as
+	// well) of the instance that issued it fails for 30 virtual seconds; its reads and its lock
+	// still work, its turn ends as usual. What it leaves behind is 0, 1 or 2 of the three files:
+	// no certificate anyone can load — whoever has the turn next (a waiter, or the same request's
+	// retry a minute later) has to obtain one. (Only over an empty subject: a half-overwritten old
+	// bundle is a mixture of two versions, the non-atomic three-key bundle of C07.) Again drawn
+	// from a generator of its own.
+	rngOut := rand.New(rand.NewSource(seed*37 + 11))
+	outageAt := 0
+	if initial == "none" && storeFaultAt == 0 && lockFaultAt == 0 && rngOut.Intn(3) == 0 {
+		outageAt = 1 + rngOut.Intn(3)
+	}
 	var dir string
 	if useFiles {
 		dir = t.TempDir()
@@ -410,7 +423,15 @@ func c01Scenario(t *testing.T, o *vOut, seed int64, maxN, scIdx int) {
 			dmu.Unlock()
 			time.Sleep(d)
 		}
-		onOp := func(ctx context.Context, n int, kind, key string) { pause(vReqOf(ctx)) }
+		reqOfOp := map[int]int{} // storage call number -> request (the fault hook is not given the context)
+		onOp := func(ctx context.Context, n int, kind, key string) {
+			if outageAt > 0 {
+				dmu.Lock()
+				reqOfOp[n] = vReqOf(ctx)
+				dmu.Unlock()
+			}
+			pause(vReqOf(ctx))
+		}
 		var fault func(n int, kind, key string) error
 		var nCalls int
 		iss.Behave = func(n int, names []string) error {
@@ -459,6 +480,31 @@ func c01Scenario(t *testing.T, o *vOut, seed int64, maxN, scIdx int) {
 				k := stores
 				dmu.Unlock()
 				if k == storeFaultAt {
+					return errVInjected
+				}
+				return nil
+			}
+		}
+		outageReq := 0
+		if outageAt > 0 {
+			var stores int
+			var outageReq0 int
+			var outageEnd time.Time
+			fault = func(n int, kind, key string) error {
+				if (kind != "Store" && kind != "Delete") || strings.HasPrefix(key, "rw_test") {
+					return nil
+				}
+				dmu.Lock()
+				defer dmu.Unlock()
+				req := reqOfOp[n]
+				if kind == "Store" && req != 0 {
+					stores++
+					if stores == outageAt {
+						outageReq0, outageEnd = req, time.Now().Add(30*time.Second)
+						outageReq = req
+					}
+				}
+				if req != 0 && req == outageReq0 && time.Now().Before(outageEnd) {
 					return errVInjected
 				}
 				return nil
@@ -628,6 +674,10 @@ func c01Scenario(t *testing.T, o *vOut, seed int64, maxN, scIdx int) {
 		o.Stat("init_"+initial, 1)
 		if twoIss {
 			o.Stat("fallback_issuer_histories", 1)
+		}
+		if outageReq != 0 {
+			o.Stat("storage_outage_during_save_histories", 1)
+			o.Stat(fmt.Sprintf("storage_outage_at_write_%d", outageAt), 1)
 		}
 		if useFiles {
 			o.Stat("backend_filestorage", 1)
